@@ -147,7 +147,13 @@ func VerifLemma_C01G_Retarget() {
 		verifAssert(after.FullName() != nil && after.FullName().String() == names[m], "module name preserved")
 		verifAssert(after.CommitID() == commits[m], "commit preserved")
 		verifAssert(after.BucketID() == before.BucketID() && after.Description() == before.Description() && after.OpaqueID() == before.OpaqueID(), "ids and description preserved")
-		verifAssert(after.IsLocal() && after.ModuleSet() == retargeted && before.ModuleSet() == original, "locality preserved, each module points to its own set")
+		verifAssert(after.IsLocal(), "locality preserved")
+		afterSet, beforeSet := after.ModuleSet(), before.ModuleSet()
+		verifAssert(afterSet != nil && beforeSet != nil, "each module has a module set")
+		if afterSet != nil && beforeSet != nil {
+			viaAfter, viaBefore := afterSet.GetModuleForOpaqueID(names[m]), beforeSet.GetModuleForOpaqueID(names[m])
+			verifAssert(viaAfter != nil && viaAfter.IsTarget() == inS[m] && viaBefore != nil && viaBefore.IsTarget() == origTarget[m], "each module's ModuleSet is the set with its own target flags")
+		}
 		beforeInfos, err := bufmodule.GetFileInfos(ctx, before)
 		verifAssert(err == nil, "files of the original module are listed")
 		afterInfos, err2 := bufmodule.GetFileInfos(ctx, after)
